@@ -110,20 +110,68 @@ type connState struct {
 	stream []string // bodies read so far
 	closed bool     // observed closed
 	asked  bool     // connect was issued
+	openAt int      // last step after which the channel was verified open (-2 = never)
 }
 
 func runScript(drv *lean.Driver, sc Script) M {
 	counts := map[string]int{}
+	var conns []*connState
+	// after the first model/implementation divergence the script goes on WITHOUT the model: only the direct monitors of
+	// the property decide from then on (a divergence alone is not a violation of the property)
+	var diverged M
+	modelOn := true
 	fail := func(i int, what, diff string, prop bool) M {
-		return M{"step": i, "what": what, "diff": diff, "property_violation": prop, "counts": counts}
+		f := M{"step": i, "what": what, "diff": diff, "property_violation": prop, "counts": counts}
+		if prop {
+			if diverged != nil {
+				f["correspondence_divergence"] = diverged["what"]
+			}
+			return f
+		}
+		if diverged == nil {
+			diverged = f
+			modelOn = false
+		}
+		return nil
 	}
+	// closures seen right after a step, attributed to that step when the channel was verified open after the previous one
+	sweep := func(i int, st Step) M {
+		for k, cs := range conns {
+			if cs.closed || cs.c.Buffered() != 0 {
+				continue
+			}
+			_, closed := cs.c.DrainOne()
+			if !closed {
+				cs.openAt = i
+				continue
+			}
+			cs.closed = true
+			if cs.openAt != i-1 {
+				continue // closed at an unknown earlier step (its buffer was not empty then)
+			}
+			allowed := false
+			switch st.Op {
+			case "connect":
+				nw := conns[len(conns)-1]
+				allowed = k == len(conns)-1 || (cs.group == nw.group && cs.id == nw.id)
+			case "disconnect":
+				allowed = k == st.Conn
+			case "shutdown":
+				allowed = true
+			}
+			if !allowed {
+				return M{"step": i, "what": "a channel was closed by an operation that must not close it", "diff": fmt.Sprintf("step %d (%s) closed connection %d (%s/%s)", i, st.Op, k, cs.group, cs.id), "property_violation": true, "counts": counts}
+			}
+		}
+		return nil
+	}
+
 	if _, _, err := drv.Call(M{"op": "poll_init", "max": sc.Max}); err != nil {
 		return M{"harness": err.Error()}
 	}
 	loop := poll.NewVerifLoop(sc.Max)
 	dummy := loop.NewConn("\x00barrier", "\x00", 1)
 	barrier := func() { loop.Disconnect(dummy) }
-	var conns []*connState
 	modelState := func() (M, error) {
 		rep, _, err := drv.Call(M{"op": "poll_state"})
 		return rep, err
@@ -172,65 +220,62 @@ func runScript(drv *lean.Driver, sc Script) M {
 		}
 		return nil
 	}
+	call := func(req M) (M, bool) {
+		if !modelOn {
+			return nil, true
+		}
+		rep, _, err := drv.Call(req)
+		if err != nil {
+			diverged = M{"harness": err.Error()}
+			modelOn = false
+			return nil, true
+		}
+		return rep, false
+	}
 	for i, st := range sc.Steps {
 		switch st.Op {
 		case "connect":
-			cs := &connState{c: loop.NewConn(st.Group, st.Id, st.Cap), group: st.Group, id: st.Id, asked: true}
+			cs := &connState{c: loop.NewConn(st.Group, st.Id, st.Cap), group: st.Group, id: st.Id, asked: true, openAt: i - 1}
 			conns = append(conns, cs)
 			loop.Connect(cs.c)
 			barrier()
-			rep, _, err := drv.Call(M{"op": "poll_connect", "group": st.Group, "id": st.Id, "cap": st.Cap})
-			if err != nil {
-				return M{"harness": err.Error()}
-			}
-			if h, _ := rep["handle"].(json.Number).Int64(); int(h) != len(conns)-1 {
-				return M{"harness": fmt.Sprintf("handle numbering: model %d harness %d", h, len(conns)-1)}
-			}
-			if f := closedBy(i, rep); f != nil {
-				return f
-			}
-			if rep["registered"] == true {
-				counts["registered"]++
-			} else {
-				counts["turned_away"]++
+			if rep, off := call(M{"op": "poll_connect", "group": st.Group, "id": st.Id, "cap": st.Cap}); !off {
+				if h, _ := rep["handle"].(json.Number).Int64(); int(h) != len(conns)-1 {
+					return M{"harness": fmt.Sprintf("handle numbering: model %d harness %d", h, len(conns)-1)}
+				}
+				_ = closedBy(i, rep)
+				if rep["registered"] == true {
+					counts["registered"]++
+				} else {
+					counts["turned_away"]++
+				}
 			}
 		case "disconnect":
 			cs := conns[st.Conn]
 			loop.Disconnect(cs.c)
 			barrier()
-			rep, _, err := drv.Call(M{"op": "poll_disconnect", "handle": st.Conn, "group": cs.group, "id": cs.id})
-			if err != nil {
-				return M{"harness": err.Error()}
-			}
-			if f := closedBy(i, rep); f != nil {
-				return f
+			if rep, off := call(M{"op": "poll_disconnect", "handle": st.Conn, "group": cs.group, "id": cs.id}); !off {
+				_ = closedBy(i, rep)
 			}
 		case "shutdown":
 			loop.CloseSend()
 			barrier()
-			rep, _, err := drv.Call(M{"op": "poll_shutdown"})
-			if err != nil {
-				return M{"harness": err.Error()}
-			}
-			if f := closedBy(i, rep); f != nil {
-				return f
+			if rep, off := call(M{"op": "poll_shutdown"}); !off {
+				_ = closedBy(i, rep)
 			}
 			counts["shutdown"]++
 		case "read":
 			cs := conns[st.Conn]
-			if cs.closed {
-				continue
-			}
-			// one body off the channel, as the HTTP handler does
-			if cs.c.Buffered() > 0 {
+			if !cs.closed && cs.c.Buffered() > 0 {
+				// one body off the channel, as the HTTP handler does
 				bodies, _ := cs.c.DrainOne()
 				for _, b := range bodies {
 					cs.stream = append(cs.stream, string(b))
 				}
 				counts["read"]++
 			}
-			if _, _, err := drv.Call(M{"op": "poll_read", "handle": st.Conn}); err != nil {
-				return M{"harness": err.Error()}
+			if !cs.closed {
+				call(M{"op": "poll_read", "handle": st.Conn})
 			}
 		case "send":
 			before := make([]int, len(conns))
@@ -280,18 +325,29 @@ func runScript(drv *lean.Driver, sc Script) M {
 			if got >= 0 {
 				req["observed"] = got
 			}
-			rep, _, err := drv.Call(req)
-			if err != nil {
-				return M{"harness": err.Error()}
+			if rep, off := call(req); !off {
+				if rep["ok"] != true {
+					fail(i, "no choice of the random pick lets the model produce the implementation's outcome", fmt.Sprintf("impl: success=%v listener=%d; model can: %v", success, got, rep["possible"]), false)
+				} else {
+					counts["send:"+strings.Split(fmt.Sprint(rep["outcome"]), ":")[0]]++
+				}
 			}
-			if rep["ok"] != true {
-				return fail(i, "no choice of the random pick lets the model produce the implementation's outcome", fmt.Sprintf("impl: success=%v listener=%d; model can: %v", success, got, rep["possible"]), false)
-			}
-			counts["send:"+strings.Split(fmt.Sprint(rep["outcome"]), ":")[0]]++
 		}
-		if f := compare(i); f != nil {
+		if modelOn {
+			if f := compare(i); f != nil {
+				return f
+			}
+		}
+		if f := sweep(i, st); f != nil {
+			if diverged != nil {
+				f["correspondence_divergence"] = diverged["what"]
+			}
 			return f
 		}
+	}
+	if diverged != nil {
+		loop.Stop()
+		return diverged
 	}
 	// end of script: stop the loop the way Poll.Stop does, then every stream equals the model's log for that channel,
 	// and exactly the channels the model closed are closed
@@ -318,7 +374,8 @@ func runScript(drv *lean.Driver, sc Script) M {
 		}
 		closed = closed || cs.closed
 		if closed != closedWant[h] {
-			return fail(len(sc.Steps), "closed / open state of a connection differs at the end", fmt.Sprintf("conn %d: impl closed=%v model closed=%v", h, closed, closedWant[h]), false)
+			fail(len(sc.Steps), "closed / open state of a connection differs at the end", fmt.Sprintf("conn %d: impl closed=%v model closed=%v", h, closed, closedWant[h]), false)
+			return diverged
 		}
 		if !reflect.DeepEqual(append([]string{}, cs.stream...), append([]string{}, logWant[h]...)) {
 			return fail(len(sc.Steps), "bytes received on a client stream differ from the accepted hand-offs", fmt.Sprintf("conn %d: impl=%v model=%v", h, cs.stream, logWant[h]), true)
